@@ -142,6 +142,33 @@ theorem binv_set {l : List Builder} (h : ∀ b ∈ l, BInv b) (i : Nat) (x : Bui
 structure WorldOK (w : World) : Prop where
   consistent : ∀ r t₁ t₂ k v₁ v₂, (k, v₁) ∈ w.topoMap r t₁ → (k, v₂) ∈ w.topoMap r t₂ → v₁ = v₂
   names : SymNameInjective w
+  /-- distinct amplitude symbols print differently -/
+  ampStrs : ∀ a b : List Nat, w.ampStr a = w.ampStr b → a = b
+
+theorem strLe_total (w : World) (a b : List Nat) : strLe w a b = true ∨ strLe w b a = true :=
+  natLex_total _ _
+
+theorem strLe_trans (w : World) (a b c : List Nat) :
+    strLe w a b = true → strLe w b c = true → strLe w a c = true := natLex_trans _ _ _
+
+theorem strLe_anti {w : World} (hw : WorldOK w) (a b : List Nat) :
+    strLe w a b = true → strLe w b a = true → a = b :=
+  fun h1 h2 => hw.ampStrs a b (natLex_anti _ _ h1 h2)
+
+theorem atomsOrderOf_perm (w : World) (p atoms : List (List Nat)) : (atomsOrderOf w p atoms).Perm atoms := by
+  unfold atomsOrderOf
+  split
+  · rename_i h
+    exact (isort_perm (strLe w) p).symm.trans (h ▸ isort_perm (strLe w) atoms)
+  · exact List.Perm.refl _
+
+/-- with the inner `sorted(..., key=str)` the visiting order of `__define_missing_amplitudes` does
+not depend on the iteration order of the atoms set -/
+theorem missingOrder_sorted {w : World} (hw : WorldOK w) (p atoms : List (List Nat)) :
+    missingOrder true w (atomsOrderOf w p atoms) = isort (strLe w) atoms := by
+  simp only [missingOrder, if_true]
+  exact isort_eq_of_perm (strLe_total w) (strLe_trans w)
+    (fun a b _ _ => strLe_anti hw a b) (atomsOrderOf_perm w p atoms)
 
 theorem kinMerge_KEq {w : World} (hw : WorldOK w) (r : Nat) {o o' : List Nat} (hp : o.Perm o') :
     KEq (kinMerge w r o) (kinMerge w r o') := by
@@ -156,13 +183,14 @@ theorem kinMerge_KEq {w : World} (hw : WorldOK w) (r : Nat) {o o' : List Nat} (h
 /-! ## `formulate` in the sound variant -/
 
 theorem formulate_spec {v : Variant} (hv : v.sound) {w : World} (hw : WorldOK w) {s : State}
-    (hs : SInv w s) (i : Nat) (b : Builder) (hb : BInv b) (order : List Nat) :
-    (formulate v w s i b order).2 = F w b.reaction b.user ∧ SInv w (formulate v w s i b order).1 := by
-  obtain ⟨hal, hre, hsh, htb⟩ := hv
+    (hs : SInv w s) (i : Nat) (b : Builder) (hb : BInv b) (order : List Nat) (atoms : List (List Nat)) :
+    (formulate v w s i b order atoms).2 = F w b.reaction b.user ∧
+      SInv w (formulate v w s i b order atoms).1 := by
+  obtain ⟨hal, hre, hsh, htb, hms⟩ := hv
   obtain ⟨hcfg, _⟩ := hb
   have hobs := HeapInv.callAll (w := w) (w.roCalls b.reaction (closeCfg w b.reaction b.user)) hs.heap
   unfold formulate F
-  simp only [effCfg, hsh, hre, htb, hcfg, if_true, Bool.false_eq_true, if_false]
+  simp only [effCfg, hsh, hre, htb, hms, hcfg, if_true, Bool.false_eq_true, if_false]
   have hperm : (orderOf order (closeCfg w b.reaction b.user).topos).Perm
       (closeCfg w b.reaction b.user).topos := orderOf_perm _ _
   cases herr : w.alignError b.reaction (closeCfg w b.reaction b.user).align with
@@ -175,10 +203,13 @@ theorem formulate_spec {v : Variant} (hv : v.sound) {w : World} (hw : WorldOK w)
     have hph := alignPhase_spec hal hobs.1 b.reaction (closeCfg w b.reaction b.user).align
     obtain ⟨h1, h2, h3, h4⟩ := hph
     constructor
-    · rw [h1, h2, hobs.2]
+    · rw [h1, h2, hobs.2, missingOrder_sorted hw]
       have := core_congr w hw.names b.reaction (closeCfg w b.reaction b.user) {}
         (pureAmp w b.reaction (closeCfg w b.reaction b.user).align)
         (pureObs w b.reaction (closeCfg w b.reaction b.user))
+        (isort (strLe w) (w.intensityAtoms b.reaction (closeCfg w b.reaction b.user)
+          (pureAmp w b.reaction (closeCfg w b.reaction b.user).align)
+          (pureObs w b.reaction (closeCfg w b.reaction b.user))))
         (pureSyms w b.reaction (closeCfg w b.reaction b.user).align)
         (kinMerge_KEq hw b.reaction hperm)
       unfold pureObs at this ⊢
@@ -218,23 +249,24 @@ theorem step_inv {v : Variant} (hv : v.sound) {w : World} (hw : WorldOK w) {s : 
       have hbi : BInv b := hs.builders b (List.mem_of_getElem? hb)
       refine ⟨hs.heap, binv_set hs.builders i _ ⟨?_, orderOf_perm _ _⟩⟩
       simp only []; rw [hbi.1]
-  | formulate i order =>
+  | formulate i order atoms =>
     simp only [step]
     cases hb : s.builders[i]? with
     | none => exact hs
     | some b =>
       have hbi : BInv b := hs.builders b (List.mem_of_getElem? hb)
-      exact (formulate_spec hv hw hs i b hbi order).2
+      exact (formulate_spec hv hw hs i b hbi order atoms).2
   | evict n =>
     simp only [step]
     exact ⟨hs.heap.evict n, hs.builders⟩
 
 theorem step_output {v : Variant} (hv : v.sound) {w : World} (hw : WorldOK w) {s : State}
-    (hs : SInv w s) (i : Nat) (order : List Nat) (b : Builder) (hb : s.builders[i]? = some b) :
-    (step v w s (.formulate i order)).2 = some (F w b.reaction b.user) := by
+    (hs : SInv w s) (i : Nat) (order : List Nat) (atoms : List (List Nat)) (b : Builder)
+    (hb : s.builders[i]? = some b) :
+    (step v w s (.formulate i order atoms)).2 = some (F w b.reaction b.user) := by
   have hbi : BInv b := hs.builders b (List.mem_of_getElem? hb)
   simp only [step, hb]
-  rw [(formulate_spec hv hw hs i b hbi order).1]
+  rw [(formulate_spec hv hw hs i b hbi order atoms).1]
 
 /-- induction over the history, for any invariant-satisfying start state -/
 theorem outputsPure_of_inv {v : Variant} (hv : v.sound) {w : World} (hw : WorldOK w) :
@@ -246,7 +278,7 @@ theorem outputsPure_of_inv {v : Variant} (hv : v.sound) {w : World} (hw : WorldO
     intro s hs
     refine ⟨?_, ih _ (step_inv hv hw hs op)⟩
     cases op with
-    | formulate i order => intro b hb; exact step_output hv hw hs i order b hb
+    | formulate i order atoms => intro b hb; exact step_output hv hw hs i order atoms b hb
     | newBuilder _ _ => trivial
     | configure _ _ => trivial
     | configureBad _ _ => trivial
